@@ -275,7 +275,7 @@ def match_known(known: list[dict], name: str):
 
 # -- files ------------------------------------------------------------------
 def write_replay(pid: str, obligation: str, payload: dict) -> str:
-    d = os.path.join(VERIF, "replay", pid)
+    d = os.path.join(os.environ.get("VF_REPLAY_DIR") or os.path.join(VERIF, "replay"), pid)
     os.makedirs(d, exist_ok=True)
     safe = "".join(c if c.isalnum() or c in "._-" else "_" for c in obligation)[:150]
     path = os.path.join(d, safe + ".json")
@@ -285,7 +285,7 @@ def write_replay(pid: str, obligation: str, payload: dict) -> str:
 
 
 def write_evidence(pid: str, evidence: dict):
-    d = os.path.join(VERIF, "evidence")
+    d = os.environ.get("VF_EVIDENCE_DIR") or os.path.join(VERIF, "evidence")
     os.makedirs(d, exist_ok=True)
     try:
         import jsonschema
